@@ -192,16 +192,18 @@ Definition get_rx_payload_126 (implicit : bool) (buflen : N) : prog (N * list N)
   Ret (len, data).
 
 Definition as_i8 (b : N) : Z := if 127 <? b then (Z.of_N b - 256)%Z else Z.of_N b.
+Definition rssi_126 (raw : N) : Z := Z.shiftr (- Z.of_N raw) 1.          (* ((-(raw as i32)) >> 1) as i16 *)
+Definition snr_126 (raw : N) : Z := Z.shiftr (as_i8 raw + 2) 2.            (* ((raw as i8) as i16 + 2) >> 2 *)
 (* get_rx_packet_status -> (rssi, snr) *)
 Definition pkt_status_126 : prog (Z * Z) :=
   sr <- spi_read_status [s6_OpCode_GetPacketStatus] 3 ;;
   let '(status, b) := sr in
   if op_is_error status then Fail (EOpError status) else
-  Ret (Z.shiftr (- Z.of_N (nthN b 0)) 1, Z.shiftr (as_i8 (nthN b 1) + 2) 2).
+  Ret (rssi_126 (nthN b 0), snr_126 (nthN b 1)).
 Definition get_rssi_126 : prog Z :=
   sr <- spi_read_status [s6_OpCode_GetRSSIInst] 1 ;;
   let '(status, b) := sr in
-  if op_is_error status then Fail (EOpError status) else Ret (Z.shiftr (- Z.of_N (nthN b 0)) 1).
+  if op_is_error status then Fail (EOpError status) else Ret (rssi_126 (nthN b 0)).
 
 Definition do_cad_126 (g : cfg126) (sf : N) : prog unit :=
   iv IvSwRx ;;;
